@@ -52,6 +52,10 @@ CLAIMED = {
          "For every structure template and seed config: every prefix of every declarable name typed on a new line in every known body, every offset inside written attribute names / block types / quoted labels, prefill off and on; the candidate list must equal (labels, kinds, order) the reference model's declarable set; every candidate is applied, re-parsed and re-validated.",
          "Exactness only on files that parse without errors; AnyAttribute placeholder and dynamic-needs-block-types encode the library's choice where the statement is silent.",
          "DESIGN.md §6 C07"),
+ "C08": ("exploration", "bounded-exhaustive enumeration of value-completion cursors (E1 sweep) with per-candidate oracles and an accept / re-collect / go-to-definition round trip",
+         "Every completion candidate inside an attribute value: reference candidates name a collected declaration, start with the typed text, are visible, are not the edited attribute and (top-level positions) fit scope/type or contain a nested declaration that does; function candidates are known and convertible; keyword/boolean candidate sets are exactly the admitted ones; accepted fitting references resolve back to their declaration.",
+         "The expected scope/type is only known at top-level value positions; nested positions get the weaker checks.",
+         "DESIGN.md §6 C08"),
  "C09": ("exploration", "bounded-exhaustive enumeration of configs for every addressable schema form (E1 sweep) with forest invariants and a top-level reference model",
          "On every collected forest: nested address = parent + one step, indexes = real positions in source order, unique steps, elements inside written values, element ranges disjoint, definition range inside range; on cleanly parsing files every range is an item extent, every addressable declaration with a resolvable address has its target with the declaration's extent/header, as-reference targets are type-less, nothing is collected inside items unknown to the effective schema.",
          "Types of expression-typed targets are not predicted; the address-resolution model is written from the statement (static/label/attribute-value steps).",
